@@ -133,7 +133,7 @@ def main(tier):
             else:
                 brief = {k: v for k, v in x.items() if k not in ('A', 'B')}
             key = '%s:%s' % (x['kind'], name)
-            if not isinstance(t, str) and t[0].endswith((':an-end-lies-on-a-shape-boundary', ':direction-restricted-end', ':only-the-bend-count-differs')):
+            if not isinstance(t, str) and t[0].endswith((':an-end-lies-on-a-shape-boundary', ':direction-restricted-end', ':only-the-bend-count-differs', ':scene-with-a-direction-restricted-end', ':buffered-shape-with-slanted-sides')):
                 key = 'route:' + t[0]                      # one class whatever the symmetry
             vd.violation(key, '%s: %s' % (name, json.dumps(brief)[:700]), brief)
     ev.cov['evaluations'] = len(recs)
@@ -142,7 +142,7 @@ def main(tier):
     ev.cov['rule'] = ('records = (A, noise, B, translated, 7 symmetric copies) for routing scenes (TLC-enumerated families + seeded random, both modes, nudging options); (A, noise, B, translated) for '
                       'VPSC re-solve histories; (A, heap churn + unrelated layout, B) for constrained layouts; translation offsets k*2^-10 with |k| <= 2^14; non-trivial = route with a bend / any solver or layout record')
     ev.sample({'kind': 'route', 'kx': recs[0]['kx'], 'ky': recs[0]['ky'], 'latA': recs[0]['latA'], 'latT': recs[0]['latT']})
-    ev.assumptions = ['same process; the option that moves endpoints (F13) is switched off here', 'VPSC independence of ids/order is decided in C02 (permuted and reversed copies against one oracle optimum)']
+    ev.assumptions = ['same process; the option that moves endpoints (F13) is switched off here', 'VPSC independence of ids/order: relabelled, shuffled copies of acyclic inequality systems, both solvers (1e-6); also decided against the oracle optimum in C02']
     rc = vd.finish()
     ev.write()
     return rc
